@@ -24,7 +24,11 @@ class AnalysisError(Exception):
 
 
 def norm(node):
-    """normalised source text of a node (position/format independent)"""
+    """normalised source text of a node (position/format independent); something that is not a syntax node (a local
+    with several bindings looked up in an environment: None, an appended-list marker) has no source text and compares
+    unequal to every expected form instead of stopping the check"""
+    if not isinstance(node, ast.AST):
+        return f"<{type(node).__name__}>"
     return ast.unparse(node)
 
 
